@@ -1,7 +1,7 @@
 """C01 - rule verdicts equal the documented semantics of clauses, queries and blocks.
 
 Oracle: gvlib/refint.py, an independent interpreter of the documented semantics (it abstains - UNSPEC - where
-the documentation does not decide). (A) exhaustive single-clause enumeration: 24 query shapes x some/all x
+the documentation does not decide). (A) exhaustive single-clause enumeration: 40 query shapes x some/all x
 (9 unary x 4 polarities + 6 binary x 2 polarities x 2 prefix x 14 literals) x 3 documents; (B) random programs
 of the core fragment (queries with * [*] [n] [filter], some/all, literals, blocks, when, named references, let
 variables, CNF, type blocks) x random documents. Statuses per rule and for the file are compared; the tool
@@ -30,6 +30,14 @@ QUERIES = {
     "nest.k.v": K("nest", "k", "v"), "nest.zz.v": K("nest", "zz", "v"), "zz": K("zz"), "l[0]": K("l") + [["idx", 0]], "l[7]": K("l") + [["idx", 7]],
     "m.x": K("m", "x"), "lm.*.x": K("lm") + [["all"]] + K("x"), "this.i": [["this"]] + K("i"),
 }
+KF = lambda op, rhs: [["keysfilter", op, ["lit", rhs]]]
+QUERIES.update({
+    "m[keys=='x']": K("m") + KF("==", "x"), "m[keys!='x']": K("m") + KF("!=", "x"), "m[keys==/^x/]": K("m") + KF("==", {"$re": "^x"}),
+    "m[keys!=/x|y/]": K("m") + KF("!=", {"$re": "x|y"}), "m[keys in ['x','zz']]": K("m") + KF("in", ["x", "zz"]), "m[keys not in ['x']]": K("m") + KF("not in", ["x", "q"]),
+    "m[keys in ['x',5]]": K("m") + KF("in", ["x", 5]), "m[keys in [true,'y',/x/]]": K("m") + KF("in", [True, "y", {"$re": "x"}]), "m[keys not in [5,'y']]": K("m") + KF("not in", [5, "y"]),
+    "m[keys==5]": K("m") + KF("==", 5), "m[keys!=5]": K("m") + KF("!=", 5), "me[keys=='q']": K("me") + KF("==", "q"),
+    "lm[keys in ['y','x']].x": K("lm") + KF("in", ["y", "x"]) + K("x"), "nest[keys=='k'].*": K("nest") + KF("==", "k") + [["all"]],
+})
 LITS = {"5": 5, "2": 2, "1.5": 1.5, '"ab"': "ab", '"a"': "a", "true": True, "null": None, "[1,2,3]": [1, 2, 3], "[5]": [5], "{x:1,y:s}": {"x": 1, "y": "s"},
         "/^a/": {"$re": "^a"}, "r[1,5]": {"$range": [1, 5, "[", "]"]}, "r(1.0,2.0)": {"$range": [1.0, 2.0, "(", ")"]}, '[5,"ab"]': [5, "ab"]}
 BIN = ["==", "<", "<=", ">", ">=", "in"]
@@ -133,9 +141,12 @@ def shard(ctx):
         doc = gen.gen_doc(rng)
         docs = json.dumps(doc)
         o.interp = t % 3 == 0          # every third program may take keys from variables (`a.%k`)
+        o.keys_filters = t % 2 == 0    # every second one may filter maps by key name (`[ keys == | != | in | not in .. ]`)
         f = gen.gen_file(rng, doc, o)
         if any(p_[0] == "varkey" for p_ in _all_parts(f)):
             ctx.res.counts["programs_with_key_interpolation"] += 1
+        if '["keysfilter"' in json.dumps(f):
+            ctx.res.counts["programs_with_keys_filters"] += 1
         r = judge_file(ctx, f, doc, docs, "random")
         if r in (None, "agree"):
             if r == "agree":
@@ -223,7 +234,7 @@ def main(tier, seed):
     unspec_pct = int(100 * c["unspec"] / max(1, res.cases))
     floor = {"cases": (res.cases, 20000), "statuses_seen": (seen, 4), "distinct_classes": (len(res.distinct), 2000), "decided_percent": (100 - unspec_pct, 60)}
     return core.finish("C01", tier, seed, res, t0,
-                       rule="(A) exhaustive: 26 query shapes x some/all x (9 unary operators x 4 polarity spellings + 6 binary operators x 3 polarity spellings x up to 14 "
+                       rule="(A) exhaustive: 40 query shapes (14 of them map-key filters) x some/all x (9 unary operators x 4 polarity spellings + 6 binary operators x 3 polarity spellings x up to 14 "
                             "literals) x 3 documents = every single-clause program of that universe; (B) random core-language programs x random documents (quick 5k, "
                             "thorough 250k); judged by the reference interpreter; distinct = (kind, operator, effective polarity, some, query shape, status)",
                        floor=floor, exhaustive=True,
